@@ -306,6 +306,8 @@ fn main() {
     cases.extend(worlds::resource_cases().into_iter().filter(|c| thorough || c.id.ends_with(":my-big-thing2") || c.id == "resource:cross-interface"));
     cases.extend(worlds::limit_cases().into_iter().filter(|c| thorough || ["limits:params16", "limits:params17", "limits:results", "limits:async-funcs"].contains(&c.id.as_str())));
     cases.extend(worlds::kebab_cases().into_iter().filter(|c| thorough || c.id == "kebab:multi-word"));
+    // one package interface in two versions (quick: the import+export variant only)
+    cases.extend(worlds::multiversion_cases().into_iter().filter(|c| thorough || c.id.ends_with(":import+export")));
     let n_class_a_enum = cases.len();
     let corpus = worlds::corpus_cases();
     let corpus_total = corpus.len();
